@@ -39,6 +39,7 @@ def plan(tier, seed):
         Part(H, "marker", {"route": "get"}, 60, 30, "class obtained without version cannot be subclassed (get)"),
         Part(H, "marker", {"route": "getitem"}, 60, 30, "class obtained without version cannot be subclassed (group[name])"),
         Part(H, "marker", {"route": "ref"}, 60, 30, "class obtained without version cannot be subclassed (ref / class argument)"),
+        Part(H, "marker", {"route": "fields_origin"}, 60, 30, "the defining class of a field reached through a version-less handle (Fields[f].origin) is marked too"),
         Part(H, "marker", {"route": "handle_get"}, 60, 30, "a version-less handle passed as key to get() states no version either"),
         Part(H, "marker", {"route": "handle_getitem"}, 60, 30, "a version-less handle passed as key to group[...] states no version either"),
         Part(H, "marker", {"route": "get", "grp": "harvester"}, 60, 30, "version-less harvester classes cannot be subclassed"),
